@@ -311,8 +311,14 @@ fn projected_def(v9: bool) -> BoxedStrategy<Def> {
         proptest::collection::vec((any::<u8>(), any::<u8>(), any::<u8>(), any::<u8>()), 0..=4),
         any::<u64>(),
     );
-    members
-        .prop_map(move |(sel, s6, d6, extra, order)| {
+    members.prop_map(move |(sel, s6, d6, extra, order)| make_projected(v9, sel, s6, d6, extra, order)).boxed()
+}
+
+/// template over a subset of the projected elements plus unrelated fields (shared by the
+/// proptest strategy and the fuzz target)
+pub fn make_projected(v9: bool, sel: Vec<usize>, s6: bool, d6: bool, extra: Vec<(u8, u8, u8, u8)>, order: u64) -> Def {
+    {
+        {
             let mut fields: Vec<FieldSpec> = vec![];
             for m in sel {
                 let (ie, len) = match m {
@@ -362,8 +368,8 @@ fn projected_def(v9: bool) -> BoxedStrategy<Def> {
                 fields.swap(i, (x % (i as u64 + 1)) as usize);
             }
             Def { kind: Kind::Plain, scope_n: 0, fields }
-        })
-        .boxed()
+        }
+    }
 }
 
 fn c13_pool() -> BoxedStrategy<gen::Pool> {
